@@ -139,6 +139,28 @@ package main
 //	                             entries; one goroutine stores and deletes a THIRD key <rounds> times (a fresh entry each time),
 //	                             g goroutines enumerate with Range all the while. Every pair a Range reports is checked.
 //	                             observation  phantom=<pairs nobody stored> dup=<keys reported twice by one Range> missing=<permanent keys not reported>
+//	closep <regs> <opts> <errmask> <seed>
+//	                             (eighth round) a start through the PACKAGE-LEVEL entry points, always in a fresh child process
+//	                             (ioc.Register appends to a package-level slice that is never cleared: every later ioc.Run of the
+//	                             process sees it). regs = the numbers of closers handed to consecutive `ioc.Register(…)` calls,
+//	                             joined by `.` (`-` = no call); then ONE `ioc.Run(app.SetConfigLoader(), <opts>…)`, opts = tokens
+//	                             joined by `.` (`-` = none): `r` = `app.SetRegistry(support.NewRegistry())`, a number k =
+//	                             `app.SetComponents(<k further closers>)`; every `r` stands before the first number (a registry
+//	                             installed AFTER components of the same call were registered discards them by the documented
+//	                             meaning of the option order — such lines are `bad-line`). Closers 0.. are the ones handed to
+//	                             ioc.Register (in call order), then the ones of the call's own SetComponents options.
+//	                             observation as `close` (all closers)
+//	closek <n> <errmask> <kinds> <seed>
+//	                             (eighth round) as `close`, but closer i is a component of the Go KIND kinds[i] (len(kinds) = n):
+//	                             `s` pointer to a struct (the ordinary vCloser), `i` pointer to a named integer, `l` pointer to a
+//	                             named slice, `c` a named channel (value receiver), `t` pointer to a named string, `m` pointer to
+//	                             a named map — these name themselves (Naming()); `I` / `L` / `C`: the same three kinds named by the
+//	                             container after their TYPE (at most one of each per line). Such values cannot carry fields: their
+//	                             delay, error flag and call/return counters live in a per-start recorder keyed by the VALUE (the
+//	                             pointer / the channel). Map- and func-kind components registered BY VALUE, and integers, arrays
+//	                             and structs registered by value, panic on the unchanged library (uncomparable / reflect.Pointer
+//	                             of a non-pointer): they are not generated.
+//	                             observation as `close`
 //
 // In `conc`, the scan/close cases run in a CHILD process (re-exec, hidden sub `concchild`) with
 // GORACE="halt_on_error=1 exitcode=66": a race report whose stack mentions github.com/go-kid/ioc becomes the
@@ -150,6 +172,9 @@ package main
 //   closea/closed: as close — every REGISTERED closer component, whatever it is wired with, whatever its name, whatever its
 //          type prints like: counter = 1 and completion flag set at return                        (close-not-all-once)
 //   closec: as close — the registered closers are told apart by their exact names                   (close-not-all-once)
+//   closep: as close — every closer handed to ioc.Register or to a SetComponents option of the ioc.Run call is a registered
+//          closer of the App that ioc.Run returns                                                  (close-not-all-once)
+//   closek: as close — a registered closer of any Go kind the library accepts                      (close-not-all-once)
 //   closeb: as close; no race report; and what the concurrently failing closers' goroutines wrote through the built-in
 //          logger is what they would have written one after the other: every failure message whole, as often as for a
 //          closer that fails alone (two goroutines formatting into shared memory lose, double or mix lines)
@@ -192,6 +217,7 @@ import (
 	"sync/atomic"
 	"time"
 
+	"github.com/go-kid/ioc"
 	"github.com/go-kid/ioc/app"
 	"github.com/go-kid/ioc/component_definition"
 	"github.com/go-kid/ioc/container"
@@ -541,6 +567,21 @@ func closeCorpus(w *hx.Writer) {
 	w.Put(runCloseC(3, 0, "t4d", 41, 10))
 	w.Put(runCloseC(4, 0x7FF, "n3d.t2a.m2a", 42, 10))
 	w.Put(runCloseC(6, 0x09, "-", 43, 5))
+	// eighth round. Closers of other Go kinds: a pointer to a named integer (slow), a pointer to a named slice (fails), a named
+	// channel (slow and fails) next to a struct closer; every kind at once, self-named and type-named; nobody a struct; control
+	w.Put(runCloseK(4, 0x0C, "silc", 44, 30))
+	w.Put(runCloseK(9, 0x92, "silctmILC", 45, 10))
+	w.Put(runCloseK(6, 0x3F, "iilccm", 46, 5))
+	w.Put(runCloseK(1, 0, "C", 47, 0))
+	w.Put(runCloseK(3, 2, "sss", 48, 5))
+	// starts through ioc.Register + ioc.Run (a fresh child process each): two registered closers + a registry of the call's own +
+	// two more closers in the call; registered ones only; three Register calls; controls without SetRegistry / without Register
+	runInChild([]string{"closep 2 r.2 10 49"}, w)
+	runInChild([]string{"closep 1 r 0 50"}, w)
+	runInChild([]string{"closep 2.1.3 r.r.1.2 257 51"}, w)
+	runInChild([]string{"closep 2.2 2 5 52"}, w)
+	runInChild([]string{"closep - r.3 2 53"}, w)
+	runInChild([]string{"closep 4 - 15 54"}, w)
 }
 
 func closeGen(rng *hx.Rng, n int, tier string, w *hx.Writer) {
@@ -612,6 +653,14 @@ func closeGen(rng *hx.Rng, n int, tier string, w *hx.Writer) {
 	// a further kind, appended: n/8 cases of closers whose names differ only in letter case
 	for i := 0; i < n/8; i++ {
 		w.Put(genCloseC(rng.Fork()))
+	}
+	// eighth round, appended: n/8 cases of closers of other Go kinds than (pointer to) struct, and n/10 starts through the
+	// package-level entry points ioc.Register + ioc.Run, each in a fresh child process of its own
+	for i := 0; i < n/8; i++ {
+		w.Put(genCloseK(rng.Fork()))
+	}
+	for i := 0; i < n/10; i++ {
+		runInChild([]string{genClosePLine(rng.Fork())}, w)
 	}
 }
 
@@ -2711,6 +2760,10 @@ func runLine(scn string, closeDelayMs int) hx.Case {
 		return runCloseC(int(num(1)), num(2), f[3], num(4), closeDelayMs)
 	case len(f) == 5 && f[0] == "closeb":
 		return runCloseB(int(num(1)), num(2), int(num(3)), num(4))
+	case len(f) == 5 && f[0] == "closep":
+		return runCloseP(f[1], f[2], num(3), num(4), 10)
+	case len(f) == 5 && f[0] == "closek":
+		return runCloseK(int(num(1)), num(2), f[3], num(4), closeDelayMs)
 	case len(f) == 7 && f[0] == "plog":
 		return runPlog(int(num(1)), int(num(2)), int(num(3)), int(num(4)), num(5), num(6))
 	case len(f) == 3 && f[0] == "rdel":
@@ -3838,9 +3891,409 @@ func concGen(rng *hx.Rng, n int, tier string, w *hx.Writer) {
 
 func concReplay(scn string, w *hx.Writer) {
 	f := strings.Fields(scn)
-	if len(f) > 0 && (((f[0] == "scan" || f[0] == "fstart" || f[0] == "gscan") && raceEnabled) || f[0] == "cstart" || f[0] == "closel" || f[0] == "closeb" || f[0] == "plog") {
+	if len(f) > 0 && (((f[0] == "scan" || f[0] == "fstart" || f[0] == "gscan") && raceEnabled) || f[0] == "cstart" || f[0] == "closel" || f[0] == "closeb" || f[0] == "plog" || f[0] == "closep") {
 		runInChild([]string{scn}, w)
 		return
 	}
 	w.Put(runLine(scn, 30))
+}
+
+// ---------------------------------------------------------------- closep: a start through ioc.Register + ioc.Run (eighth round)
+
+// closepDirty: ioc.Register was called in this process. The package-level slice it appends to is never cleared, so a second
+// `closep` history in the same process would start with the closers of the first one: every line runs in a child of its own.
+var closepDirty bool
+
+type closepOpt struct {
+	registry bool // app.SetRegistry(support.NewRegistry())
+	k        int  // app.SetComponents(<k closers>)
+}
+
+func parseCounts(s string, max int) ([]int, bool) {
+	if s == "-" {
+		return nil, true
+	}
+	var out []int
+	for _, t := range strings.Split(s, ".") {
+		v, err := strconv.Atoi(t)
+		if err != nil || v < 1 || v > 8 || strconv.Itoa(v) != t {
+			return nil, false
+		}
+		out = append(out, v)
+	}
+	return out, len(out) > 0 && len(out) <= max
+}
+
+func parseCloseP(regs, opts string) (groups []int, ops []closepOpt, ok bool) {
+	groups, ok = parseCounts(regs, 6)
+	if !ok {
+		return nil, nil, false
+	}
+	if opts == "-" {
+		return groups, nil, true
+	}
+	toks := strings.Split(opts, ".")
+	if len(toks) > 8 {
+		return nil, nil, false
+	}
+	comps := false
+	for _, t := range toks {
+		if t == "r" {
+			if comps { // a registry installed after components of the same call: not generated, not judged
+				return nil, nil, false
+			}
+			ops = append(ops, closepOpt{registry: true})
+			continue
+		}
+		ks, ok := parseCounts(t, 1)
+		if !ok || len(ks) != 1 {
+			return nil, nil, false
+		}
+		comps = true
+		ops = append(ops, closepOpt{k: ks[0]})
+	}
+	return groups, ops, true
+}
+
+// runCloseP: see the header (`closep`). Runs in the process it is called in: callers go through runInChild, one line each.
+func runCloseP(regs, opts string, mask, seed uint64, maxDelayMs int) hx.Case {
+	concQuiet()
+	scn := fmt.Sprintf("closep %s %s %d %d", regs, opts, mask, seed)
+	groups, ops, ok := parseCloseP(regs, opts)
+	nreg, nown, nsetreg := 0, 0, 0
+	for _, g := range groups {
+		nreg += g
+	}
+	for _, o := range ops {
+		nown += o.k
+		if o.registry {
+			nsetreg++
+		}
+	}
+	total := nreg + nown
+	if !ok || total > 60 || mask>>uint(total) != 0 {
+		return hx.Case{Scn: scn, Obs: "bad-line", Oracle: "FAIL bad-line"}
+	}
+	if closepDirty {
+		return hx.Case{Scn: scn, Obs: "bad-process", Oracle: "FAIL harness-closep-reused ioc.Register was already called in this process"}
+	}
+	rng := hx.NewRng(seed ^ 0xC105E9)
+	closers := make([]*vCloser, total)
+	whats := make([]string, total)
+	samplers := make([]closeSampler, total)
+	nfail := 0
+	for i := range closers {
+		d := time.Duration(0)
+		if maxDelayMs > 0 && rng.P(1, 2) {
+			d = time.Duration(rng.Intn(maxDelayMs*1000+1)) * time.Microsecond
+		}
+		name := fmt.Sprintf("vr%03d", i)
+		whats[i] = fmt.Sprintf("closer %q handed to ioc.Register", name)
+		if i >= nreg {
+			name = fmt.Sprintf("vc%03d", i)
+			whats[i] = fmt.Sprintf("closer %q of a SetComponents option of the ioc.Run call", name)
+		}
+		c := &vCloser{N: name, delay: d, fail: bit(mask, i)}
+		if c.fail {
+			nfail++
+		}
+		closers[i] = c
+		samplers[i] = func() (int32, int32) { return atomic.LoadInt32(&c.calls), atomic.LoadInt32(&c.done) }
+	}
+	tags := []string{"close", "package-level-entry-points", fmt.Sprintf("closers=%s", bucket(total)), fmt.Sprintf("failing=%s", bucket(nfail)),
+		fmt.Sprintf("via-ioc.Register=%s", bucket(nreg)), fmt.Sprintf("via-SetComponents=%s", bucket(nown)), fmt.Sprintf("SetRegistry-options=%d", nsetreg)}
+	if nreg == 0 || nsetreg == 0 {
+		tags = append(tags, "trivial")
+	}
+	next := 0
+	take := func(k int) []any {
+		var cs []any
+		for j := 0; j < k; j++ {
+			cs = append(cs, closers[next])
+			next++
+		}
+		return cs
+	}
+	for _, g := range groups {
+		closepDirty = true
+		ioc.Register(take(g)...)
+	}
+	options := []app.SettingOption{app.SetConfigLoader()}
+	for _, o := range ops {
+		if o.registry {
+			options = append(options, app.SetRegistry(support.NewRegistry()))
+		} else {
+			options = append(options, app.SetComponents(take(o.k)...))
+		}
+	}
+	var a *app.App
+	var err error
+	if out := withWatchdog(20*time.Second, func() { a, err = ioc.Run(options...) }); out != "" || err != nil || a == nil {
+		return hx.Case{Scn: scn, Obs: "run-" + out + "-failed", Oracle: "FAIL close-run-failed " + fmt.Sprint(err), Tags: tags}
+	}
+	obs, oracle, _ := closeAndSample(a, samplers, func(i int) string {
+		return fmt.Sprintf("%s; ioc.Run was given %d SetRegistry option(s) before its components", whats[i], nsetreg)
+	})
+	return hx.Case{Scn: scn, Obs: obs, Oracle: oracle, Tags: tags}
+}
+
+func genClosePLine(r *hx.Rng) string {
+	var regs, opts []string
+	total := 0
+	ng := 1 + r.Intn(3)
+	if r.P(1, 8) {
+		ng = 0
+	}
+	for i := 0; i < ng; i++ {
+		k := 1 + r.Intn(4)
+		if r.P(1, 6) {
+			k = 5 + r.Intn(4)
+		}
+		regs = append(regs, strconv.Itoa(k))
+		total += k
+	}
+	// three of four histories install a registry of their own (sometimes twice) before the call's components
+	if r.P(3, 4) {
+		opts = append(opts, "r")
+		if r.P(1, 6) {
+			opts = append(opts, "r")
+		}
+	}
+	nc := r.Intn(3)
+	for i := 0; i < nc; i++ {
+		k := 1 + r.Intn(4)
+		opts = append(opts, strconv.Itoa(k))
+		total += k
+	}
+	all := uint64(1)<<uint(total) - 1
+	var mask uint64
+	switch r.Intn(4) {
+	case 0:
+	case 1:
+		mask = all
+	default:
+		mask = r.U64() & all
+	}
+	j := func(l []string) string {
+		if len(l) == 0 {
+			return "-"
+		}
+		return strings.Join(l, ".")
+	}
+	return fmt.Sprintf("closep %s %s %d %d", j(regs), j(opts), mask, r.U64()%1000000)
+}
+
+// ---------------------------------------------------------------- closek: closers of other Go kinds than (pointer to) struct (eighth round)
+
+// kRec: what a closer that cannot carry fields would carry; kEnv: the recorder of the current start, keyed by the component
+// VALUE (a pointer or a channel: comparable, unique per component). One start at a time per process.
+type kRec struct {
+	name        string
+	delay       time.Duration
+	fail        bool
+	calls, done int32
+}
+
+type kEnv struct{ recs map[any]*kRec }
+
+var curK atomic.Pointer[kEnv]
+
+// kStray: Close calls on values the current start does not know (a component of an earlier start closed late)
+var kStray int32
+
+func kRecOf(v any) *kRec {
+	if e := curK.Load(); e != nil {
+		return e.recs[v]
+	}
+	return nil
+}
+
+func kName(v any) string {
+	if r := kRecOf(v); r != nil {
+		return r.name
+	}
+	return "" // a value the start does not know (e.g. a zero value made by reflection): no name of its own
+}
+
+func kClose(v any) error {
+	r := kRecOf(v)
+	if r == nil {
+		atomic.AddInt32(&kStray, 1)
+		return nil
+	}
+	atomic.AddInt32(&r.calls, 1)
+	if r.delay > 0 {
+		time.Sleep(r.delay)
+	}
+	atomic.StoreInt32(&r.done, 1)
+	if r.fail {
+		return errors.New("close failed")
+	}
+	return nil
+}
+
+type (
+	vKInt   int64          // a session counter
+	vKList  []string       // a pool of connections
+	vKChan  chan struct{}  // a stop signal
+	vKText  string         // a lock-file path
+	vKMap   map[string]int // a table of open handles
+	vKIntT  int64
+	vKListT []string
+	vKChanT chan struct{}
+)
+
+func (c *vKInt) Close() error   { return kClose(c) }
+func (c *vKList) Close() error  { return kClose(c) }
+func (c vKChan) Close() error   { return kClose(c) }
+func (c *vKText) Close() error  { return kClose(c) }
+func (c *vKMap) Close() error   { return kClose(c) }
+func (c *vKIntT) Close() error  { return kClose(c) }
+func (c *vKListT) Close() error { return kClose(c) }
+func (c vKChanT) Close() error  { return kClose(c) }
+
+func (c *vKInt) Naming() string  { return kName(c) }
+func (c *vKList) Naming() string { return kName(c) }
+func (c vKChan) Naming() string  { return kName(c) }
+func (c *vKText) Naming() string { return kName(c) }
+func (c *vKMap) Naming() string  { return kName(c) }
+
+const closekKinds = "silctmILC"
+
+func newKComp(kind byte, i int) (comp any, what string) {
+	switch kind {
+	case 'i':
+		p := new(vKInt)
+		*p = vKInt(i + 1)
+		return p, "pointer to a named integer (*vKInt)"
+	case 'l':
+		p := &vKList{"a", "b"}
+		return p, "pointer to a named slice (*vKList)"
+	case 'c':
+		return make(vKChan), "named channel (vKChan)"
+	case 't':
+		p := new(vKText)
+		*p = vKText(fmt.Sprintf("/run/lock/%d", i))
+		return p, "pointer to a named string (*vKText)"
+	case 'm':
+		p := &vKMap{"fd": i}
+		return p, "pointer to a named map (*vKMap)"
+	case 'I':
+		p := new(vKIntT)
+		*p = vKIntT(i + 1)
+		return p, "pointer to a named integer, named after its type (*vKIntT)"
+	case 'L':
+		p := &vKListT{"a"}
+		return p, "pointer to a named slice, named after its type (*vKListT)"
+	case 'C':
+		return make(vKChanT), "named channel, named after its type (vKChanT)"
+	}
+	return nil, ""
+}
+
+// runCloseK: see the header (`closek`).
+func runCloseK(n int, mask uint64, kinds string, seed uint64, maxDelayMs int) hx.Case {
+	concQuiet()
+	scn := fmt.Sprintf("closek %d %d %s %d", n, mask, kinds, seed)
+	ok := n >= 0 && n <= 40 && mask>>uint(n) == 0 && (len(kinds) == n || (n == 0 && kinds == "-"))
+	if ok && n > 0 {
+		for _, k := range []byte(kinds) {
+			if !strings.ContainsRune(closekKinds, rune(k)) || (k < 'a' && strings.Count(kinds, string(k)) > 1) {
+				ok = false
+			}
+		}
+	}
+	if !ok {
+		return hx.Case{Scn: scn, Obs: "bad-line", Oracle: "FAIL bad-line"}
+	}
+	rng := hx.NewRng(seed ^ 0xC105EB)
+	env := &kEnv{recs: map[any]*kRec{}}
+	var comps []any
+	var samplers []closeSampler
+	var whats []string
+	nfail, nother := 0, 0
+	for i := 0; i < n; i++ {
+		d := time.Duration(0)
+		if maxDelayMs > 0 && rng.P(1, 2) {
+			d = time.Duration(rng.Intn(maxDelayMs*1000+1)) * time.Microsecond
+		}
+		fail := bit(mask, i)
+		if fail {
+			nfail++
+		}
+		if kinds[i] == 's' {
+			c := &vCloser{N: fmt.Sprintf("vc%03d", i), delay: d, fail: fail}
+			comps = append(comps, c)
+			samplers = append(samplers, func() (int32, int32) { return atomic.LoadInt32(&c.calls), atomic.LoadInt32(&c.done) })
+			whats = append(whats, fmt.Sprintf("pointer to a struct (*vCloser) %q", c.N))
+			continue
+		}
+		nother++
+		comp, what := newKComp(kinds[i], i)
+		rec := &kRec{delay: d, fail: fail}
+		if kinds[i] >= 'a' {
+			rec.name = fmt.Sprintf("vk%03d", i)
+			what += fmt.Sprintf(" %q", rec.name)
+		}
+		env.recs[comp] = rec
+		comps = append(comps, comp)
+		samplers = append(samplers, func() (int32, int32) { return atomic.LoadInt32(&rec.calls), atomic.LoadInt32(&rec.done) })
+		whats = append(whats, what)
+	}
+	tags := []string{"close", "closers-of-other-kinds", fmt.Sprintf("closers=%s", bucket(n)), fmt.Sprintf("failing=%s", bucket(nfail)),
+		fmt.Sprintf("not-struct-kind=%s", bucket(nother))}
+	for _, k := range []byte(closekKinds) {
+		if strings.IndexByte(kinds, k) >= 0 {
+			tags = append(tags, fmt.Sprintf("kind-%c", k))
+		}
+	}
+	if nother == 0 {
+		tags = append(tags, "trivial")
+	}
+	curK.Store(env)
+	a := app.NewApp()
+	var err error
+	if out := withWatchdog(20*time.Second, func() { err = a.Run(app.SetComponents(comps...), app.SetConfigLoader()) }); out != "" || err != nil {
+		return hx.Case{Scn: scn, Obs: "run-" + out + "-failed", Oracle: "FAIL close-run-failed " + fmt.Sprint(err), Tags: tags}
+	}
+	obs, oracle, _ := closeAndSample(a, samplers, func(i int) string { return "a " + whats[i] })
+	return hx.Case{Scn: scn, Obs: obs, Oracle: oracle, Tags: tags}
+}
+
+func genCloseK(r *hx.Rng) hx.Case {
+	n := 1 + r.Intn(12)
+	if r.P(1, 8) {
+		n = 13 + r.Intn(20)
+	}
+	self := "ilctm"
+	kinds := make([]byte, n)
+	for i := range kinds {
+		if r.P(2, 5) {
+			kinds[i] = 's'
+		} else {
+			kinds[i] = self[r.Intn(len(self))]
+		}
+	}
+	if r.P(1, 8) { // nobody is a struct
+		for i := range kinds {
+			kinds[i] = self[r.Intn(len(self))]
+		}
+	}
+	// type-named ones: each at most once
+	for _, k := range []byte("ILC") {
+		if r.P(1, 3) {
+			kinds[r.Intn(n)] = k
+		}
+	}
+	// a later draw may have overwritten an earlier type-named one, never doubled it
+	all := uint64(1)<<uint(n) - 1
+	var mask uint64
+	switch r.Intn(4) {
+	case 0:
+	case 1:
+		mask = all
+	default:
+		mask = r.U64() & all
+	}
+	return runCloseK(n, mask, string(kinds), r.U64()%1000000, 30)
 }
